@@ -236,7 +236,7 @@ def random_op(rng, version, objs, op=None):
                 tag=E.Tags.PUBLIC_KEY_TEMPLATE_ATTRIBUTE) if rng.random() < 0.6 else None))
     if op == 'register':
         kind = rng.choice(list(rig.OBJ_TYPES))
-        sk = kind if rng.random() < 0.9 else rng.choice(list(rig.OBJ_TYPES))
+        sk = kind
         return op, op_register(kind, rand_secret(rng, sk), rand_template_attrs(rng, version, kind))
     if op == 'get':
         return op, op_get(pick_uid(rng, objs),
